@@ -1,7 +1,7 @@
 (* The faithful world machine: the code's data structures and statement
    order, deterministic.  (Phase A: the entity part of WorldExt.)
    Definitions only. *)
-From SV Require Export World.Ops World.Env Alloc.AllocStep.
+From SV Require Export World.Ops World.Env World.Join Alloc.AllocStep.
 
 Record world := {
   w_alloc : astate;
@@ -125,6 +125,10 @@ Definition wstep_core (fixed : bool) (w : world) (o : op) : world * wout :=
   | OLazyInsert _ h _ | OLazyRemove _ h => (w, match hget (w_hs w) h with Some _ => WUnit | None => WSkip end)
   | OLazyInsertAll _ l => (w, match hget_all (w_hs w) (map fst l) with Some _ => WUnit | None => WSkip end)
   | OLazyExec _ => (w, WUnit)
+  | OJoin k ms =>
+      let '(e', j) := env_join (w_env w) (a_view (w_alloc w)) (eids_of (a_entities (w_alloc w))) (w_hs w) k ms in
+      (with_env w e', WJoin j)
+  | OCs c => let '(e', r) := env_csop (w_env w) (w_hs w) c in (with_env w e', cs_out r)
   | OBad => (w, WSkip)
   end.
 
